@@ -75,6 +75,26 @@ CHECKS.update({
             "§4 C20", "who-may-call on atomic operations + def-use provenance on MIR via rustc_private driver"),
 })
 
+CHECKS.update({
+    "C06": ("Ordering/multiplicity of take<close<append in the one emission site (exactly once on every path), who-may-call closure of "
+            "EntrySink::append and of the shared-cell clone, construction-site rules for guard tokens and force-flush guards, absence of "
+            "leak primitives, Clone/DerefMut impl tables. Drop order across threads rests on Arc/Mutex semantics and is not decided.",
+            "§4 C06", "MIR path counting + who-may-call + impl-table queries via rustc_private driver"),
+    "C13": ("Destructor rule (send exactly once with the closed value; the flush-guard field untouched before the send), call-graph "
+            "deny-list for waiting primitives from close(), provenance of the handed-out guard and of the stored mode, type-structure "
+            "facts. Thread placement of drops is not decided.", "§4 C13",
+            "MIR path rules + call-graph reachability + provenance + ADT field facts via rustc_private driver"),
+    "C15": ("Forwarders are discovered from the impl table (pointer-like wrappers, ADTs with a field of a same-trait-bound type parameter, "
+            "the object-safe Dyn* bridge, cross-trait adapters) and each method is checked: exactly-once forwarding per inner value on "
+            "every path, positional parameter provenance through order-preserving adapters only, additions chained after incoming items, "
+            "flags merged, sample_group returned. Holds for every instantiation because the MIR is polymorphic.", "§4 C15",
+            "impl-table discovery + per-method provenance / path-counting on polymorphic MIR via rustc_private driver"),
+    "C18": ("Per-operation effect sets of both guard implementations, the two duration representations, Stopwatch and Timer compared "
+            "with the reference table and with each other (sibling cross-check); injected time source provenance; precedence chain of "
+            "get_time_source. Composition over histories is an induction on paper; clock values are runtime.", "§4 C18",
+            "effect-summary extraction + sibling comparison + provenance on MIR via rustc_private driver"),
+})
+
 NA_PENDING = {}
 
 def main():
